@@ -3,6 +3,7 @@ from __future__ import annotations
 import abc
 import io
 import pathlib
+import re
 from collections.abc import Iterable, Iterator
 from dataclasses import dataclass, field
 from typing import Any
@@ -11,6 +12,10 @@ from xsdata.exceptions import XmlHandlerError
 from xsdata.formats.dataclass.parsers.config import ParserConfig
 from xsdata.formats.types import T
 from xsdata.models.enums import EventType
+
+ENCODING_DECLARATION = re.compile(
+    r"^(\s*<\?xml[^>]*?\sencoding\s*=\s*)([\"'])[^\"']*\2"
+)
 
 
 @dataclass
@@ -67,6 +72,8 @@ class PushParser:
         Returns:
             An instance of the specified class representing the parsed content.
         """
+        # The text is encoded as utf-8, whatever its xml declaration says
+        source = ENCODING_DECLARATION.sub(r"\g<1>\g<2>UTF-8\g<2>", source, count=1)
         return self.from_bytes(source.encode(), clazz, ns_map)
 
     def from_bytes(
